@@ -13,6 +13,7 @@ import itertools
 import re
 
 from lib.framework import Check, enc, encb
+from harness import c07_inner
 
 CONSTS = [0xEF, 0xBB, 0xBF, 0xFF, 0xFE, 0x00, 0x40, 0x63, 0x68, 0x61]
 PREFIX = '@charset "'
@@ -109,6 +110,7 @@ class C07(Check):
         ctx.phase(self.corr_text, ctx, c, rng)
         ctx.phase(self.corr_incdec, ctx, c, rng)
         ctx.phase(self.corr_incenc, ctx, c, rng)
+        ctx.phase(c07_inner.corr_inner, self, ctx, c, rng)
         ctx.phase(self.oracle_spec, ctx, c, rng)
         ctx.phase(self.oracle_roundtrip_chunking, ctx, c, rng)
 
